@@ -67,4 +67,22 @@ PROPS = {
                        "stub": ["kernel (ppoll/read/write/close, time, usleep): /verif/sim/simkernel.cpp", "adapter byte stream: generated, fed into the simulated fd", "DeviceListener/TransportListener: recording test doubles"]},
         "assumptions": ASSUME_COMMON + ["after a RESETTED that is not the answer to an INIT sent less than 2.5 s ago the rest of the stream is not judged (the transport is closed)", "the byte directly following a dangling first byte may be lost or decoded"],
     },
+    "C13": {
+        "families": ["c13"],
+        "runs": {"quick": 40000, "thorough": 500000},
+        "level": "exploration",
+        "rule": "one evaluation = one simulated run of the real MessageMap/Condition code: generated referenced messages (1..3 numeric/string fields), conditions of every shape (value lists, ranges, <,>,<=,>=, strings, combined, derived on the fly, without values, unresolvable ones), guarded messages, and a history of stores (bus role thread), clock steps (0, 1 ms, 400 ms, 1 s, 61 s) and availability queries through find() by name and by telegram (main role thread). Non-trivial = at least one query; distinct = distinct trace hashes among those.",
+        "components": {"real": ["src/lib/ebus/message.cpp (MessageMap, Message, SimpleCondition, CombinedCondition, readConditions, resolveConditions, find, storeLastData)", "src/lib/ebus/data.cpp, datatype.cpp (field decode, hasField)", "src/lib/ebus/filereader.cpp"],
+                       "stub": ["clock and the two role threads' scheduling: /verif/sim/simkernel.cpp", "Resolver: minimal test double (no templates, no includes)"]},
+        "assumptions": ASSUME_COMMON + ["a query that overlaps a store of the referenced message in the recorded op order is not judged", "scan conditions are not generated"],
+    },
+    "C17": {
+        "families": ["c17"],
+        "runs": {"quick": 20000, "thorough": 300000},
+        "level": "exploration",
+        "rule": "one evaluation = one simulated run: 2..12 pollable messages with priorities 0..9 loaded from CSV, phases of 150..1650 getNextPoll() calls (bus role) with clock steps, separated by priority changes with front/back re-insertion and by definitions loaded late (main role). Judged per perturbation-free window against stride scheduling bounds (doubled constant 36, one settling window). Non-trivial = more than 50 selections; distinct = distinct trace hashes among those.",
+        "components": {"real": ["src/lib/ebus/message.cpp (MessageMap::getNextPoll/addPollMessage/add, Message::setPollPriority/isLessPollWeight)"],
+                       "stub": ["clock and role threads: /verif/sim/simkernel.cpp", "Resolver: minimal test double"]},
+        "assumptions": ASSUME_COMMON + ["fairness bounds: |n_i*p_i - n_j*p_j| <= 36 + 2*max(p) and re-selection within 1 + sum floor(36/p_j) + 2 selections, after one settling window following each perturbation"],
+    },
 }
